@@ -19,8 +19,10 @@ def IsBudget {α} : Except Diag α → Prop
 /-- `x ⊑ y`: on every state where `x` does not run out of fuel, `y` gives the same result and state -/
 def Below {α} (x y : P α) : Prop := ∀ s, IsBudget (x.run.run s).1 ∨ y.run.run s = x.run.run s
 
+/-- reflexivity -/
 theorem Below.refl {α} (x : P α) : Below x x := fun _ => Or.inr rfl
 
+/-- transitivity: a result of `x` that is no budget failure is also the result of `y`, hence of `z` -/
 theorem Below.trans {α} {x y z : P α} (h1 : Below x y) (h2 : Below y z) : Below x z := by
   intro s
   rcases h1 s with h | h
@@ -29,6 +31,7 @@ theorem Below.trans {α} {x y z : P α} (h1 : Below x y) (h2 : Below y z) : Belo
     · rw [h] at h'; exact Or.inl h'
     · exact Or.inr (h'.trans h)
 
+/-- congruence for `>>=` -/
 theorem Below.bind {α β} {x x' : P α} {g g' : α → P β} (h1 : Below x x') (h2 : ∀ a, Below (g a) (g' a)) :
     Below (x >>= g) (x' >>= g') := by
   intro s
@@ -46,10 +49,12 @@ theorem Below.bind {α β} {x x' : P α} {g g' : α → P β} (h1 : Below x x') 
     | error d => exact Or.inr rfl
     | ok a => exact h2 a s'
 
+/-- congruence for `if` -/
 theorem Below.ite {α} (c : Prop) [Decidable c] {a a' b b' : P α} (h1 : Below a a') (h2 : Below b b') :
     Below (if c then a else b) (if c then a' else b') := by
   by_cases h : c <;> simp only [h, if_true, if_false] <;> assumption
 
+/-- the fuel-0 case of every parser function is below everything -/
 theorem Below.budget {α} (y : P α) : Below (do P.fail (← P.cur) .budget) y := fun _ => Or.inl rfl
 
 /-- structural congruence steps: both sides come from the same `do` block and differ only in the fuel
@@ -66,6 +71,7 @@ macro_rules
       | dsimp only
       | split))
 
+/-- one more unit of fuel, for the nine mutually recursive expression parsers -/
 structure ExprMono (cfg : PCfg) (f : Nat) : Prop where
   level : ∀ k, Below (parseLevel cfg f k) (parseLevel cfg (f+1) k)
   loop : ∀ k l, Below (loopLevel cfg f k l) (loopLevel cfg (f+1) k l)
@@ -77,6 +83,7 @@ structure ExprMono (cfg : PCfg) (f : Nat) : Prop where
   ref : Below (parseRef cfg f) (parseRef cfg (f+1))
   refLoop : ∀ r, Below (refLoop cfg f r) (refLoop cfg (f+1) r)
 
+/-- fuel monotonicity of the expression parsers, by induction on the fuel -/
 theorem exprMono (cfg : PCfg) : ∀ f, ExprMono cfg f
   | 0 => by
     constructor <;> intros
@@ -120,6 +127,7 @@ theorem exprMono (cfg : PCfg) : ∀ f, ExprMono cfg f
       conv => rhs; rw [refLoop]
       mono [h1, h2, h3, h4, h5, h6, h7, h8, h9]
 
+/-- `parseEval`, `parseArithE`, `parseStrE` are `parseLevel` at levels 0, 4, 3 -/
 theorem parseEval_mono (cfg : PCfg) (f : Nat) : Below (parseEval cfg f) (parseEval cfg (f+1)) :=
   (exprMono cfg f).level 0
 theorem parseArithE_mono (cfg : PCfg) (f : Nat) : Below (parseArithE cfg f) (parseArithE cfg (f+1)) :=
@@ -127,6 +135,7 @@ theorem parseArithE_mono (cfg : PCfg) (f : Nat) : Below (parseArithE cfg f) (par
 theorem parseStrE_mono (cfg : PCfg) (f : Nat) : Below (parseStrE cfg f) (parseStrE cfg (f+1)) :=
   (exprMono cfg f).level 3
 
+/-- fuel monotonicity of the DECLARE / TYPE / parameter-list parsers -/
 theorem parseIdentList_mono : ∀ f acc, Below (parseIdentList f acc) (parseIdentList (f+1) acc)
   | 0, acc => by rw [parseIdentList]; exact Below.budget _
   | f + 1, acc => by
@@ -183,6 +192,8 @@ theorem parseParams_mono : ∀ f a, Below (parseParams f a) (parseParams (f+1) a
     mono [ih]
 
 
+/-- congruence for the nested pattern match of `parseBlock` that records the
+    comparison-result-ignored warning (`split` is too slow on it) -/
 theorem Below.warnMatch {β} (n : Stmt) (A A' : Tok → P β) (B B' : P β)
     (hA : ∀ o, Below (A o) (A' o)) (hB : Below B B') :
     Below (match n with | .expr (.cmp o _ (.access _ _) _) => A o | _ => B)
@@ -193,6 +204,7 @@ theorem Below.warnMatch {β} (n : Stmt) (A A' : Tok → P β) (B B' : P β)
   rename_i o op l r
   cases l <;> first | exact hB | exact hA _
 
+/-- one more unit of fuel, for the six mutually recursive statement parsers -/
 structure StmtMono (cfg : PCfg) (f : Nat) : Prop where
   block : ∀ bk acc, Below (parseBlock cfg f bk acc) (parseBlock cfg (f+1) bk acc)
   procedure : Below (parseProcedure cfg f) (parseProcedure cfg (f+1))
@@ -201,6 +213,8 @@ structure StmtMono (cfg : PCfg) (f : Nat) : Prop where
   clauses : ∀ acc, Below (parseClauses cfg f acc) (parseClauses cfg (f+1) acc)
   stmt : Below (parseStmt cfg f) (parseStmt cfg (f+1))
 
+/-- fuel monotonicity of the statement parsers, by induction on the fuel; `parseStmt` by cases on
+    the kind of the first token -/
 theorem stmtMono (cfg : PCfg) : ∀ f, StmtMono cfg f
   | 0 => by
     constructor <;> intros
